@@ -11,8 +11,10 @@ for d in sorted(glob.glob(os.path.join(os.path.dirname(__file__), '..', 'seeded'
     conf = v.get('confirmed', {})
     ok = all(conf.get(k) for k in ('builds', 'suite_passes', 'demo_fails_with_patch', 'demo_passes_without_patch'))
     cells = []
-    for p, r in sorted(v.get('checks', {}).items()):
-        how = 'MISSED'
+    for p, r in sorted(v.get('checks', {}).items(), key=lambda kv: (kv[0] != m.get('property'), kv[0])):
+        how = 'MISSED' if p == m.get('property') else 'not reported (secondary property, run for information)'
+        if r['exit'] == 2:
+            how = 'infrastructure error at the time (since then a run-away simulator is reported as a violation)'
         if r['exit'] == 1:
             rp = os.path.join(d, f'replay-{p}.json')
             kind = key = ''
